@@ -34,6 +34,7 @@ import (
 const (
 	AType = resource.Type("test/A")
 	BType = resource.Type("test/B")
+	CType = resource.Type("test/C") // a second kind of dependant, made by the external actor (cleanup-combined)
 )
 
 type ASpec struct{ Int int }
@@ -56,8 +57,19 @@ func (bExt) ResourceDefinition() spec.ResourceDefinitionSpec {
 	return spec.ResourceDefinitionSpec{Type: BType, DefaultNamespace: hx.NS}
 }
 
+type cExt struct{}
+
+func (cExt) ResourceDefinition() spec.ResourceDefinitionSpec {
+	return spec.ResourceDefinitionSpec{Type: CType, DefaultNamespace: hx.NS}
+}
+
 type A = typed.Resource[ASpec, aExt]
 type B = typed.Resource[BSpec, bExt]
+type C = typed.Resource[BSpec, cExt]
+
+func NewC(id string) *C {
+	return typed.NewResource[BSpec, cExt](resource.NewMetadata(hx.NS, CType, id, resource.VersionUndefined), BSpec{})
+}
 
 func NewA(id string, v int) *A {
 	return typed.NewResource[ASpec, aExt](resource.NewMetadata(hx.NS, AType, id, resource.VersionUndefined), ASpec{Int: v})
@@ -183,6 +195,12 @@ func doOp(ctx context.Context, st state.State, op string, act *actor) {
 			ignore(err)
 			act.blocked[id] = false
 		})
+	case "settle": // a slow actor: it waits until the system has gone quiet before its next step
+		vrt.WaitQuiescent()
+	case "mkc": // the actor creates a second dependant of the input (kind C)
+		ignore(st.Create(ctx, NewC("dep-"+id)))
+	case "rmc":
+		ignore(st.Destroy(ctx, NewC("dep-"+id).Metadata()))
 	case "outfin": // a third party puts a finalizer on the output
 		ignore(st.AddFinalizer(ctx, bPtr("out-"+id), "third"))
 	case "outrmfin":
@@ -243,7 +261,7 @@ func register(rt *runtime.Runtime, c Cfg, invocations *int) error {
 				return xform(in, out)
 			},
 		}, opts...))
-	case "cleanup":
+	case "cleanup", "cleanup-combined":
 		// the outputs are owned by a plain transform controller; the cleanup controller guards the inputs
 		if err := rt.RegisterController(transform.NewController(transform.Settings[*A, *B]{
 			Name:            ctrlName,
@@ -254,12 +272,18 @@ func register(rt *runtime.Runtime, c Cfg, invocations *int) error {
 		})); err != nil {
 			return err
 		}
-		return rt.RegisterController(cleanup.NewController(cleanup.Settings[*A]{
-			Name: "cleaner",
-			Handler: cleanup.HasNoOutputs[*B](func(in *A) state.ListOption {
-				return state.WithIDQuery(resource.IDRegexpMatch(mustRe("^out-" + in.Metadata().ID() + "$")))
-			}),
-		}))
+		hb := cleanup.HasNoOutputs[*B](func(in *A) state.ListOption {
+			return state.WithIDQuery(resource.IDRegexpMatch(mustRe("^out-" + in.Metadata().ID() + "$")))
+		})
+		if c.Flavour == "cleanup-combined" {
+			// two kinds of dependants; the C handler comes first, so it is the one still pending when the
+			// transform controller has already removed the B output
+			hc := cleanup.HasNoOutputs[*C](func(in *A) state.ListOption {
+				return state.WithIDQuery(resource.IDRegexpMatch(mustRe("^dep-" + in.Metadata().ID() + "$")))
+			})
+			hb = cleanup.Combine(hc, hb)
+		}
+		return rt.RegisterController(cleanup.NewController(cleanup.Settings[*A]{Name: "cleaner", Handler: hb}))
 	}
 	panic("flavour " + c.Flavour)
 }
@@ -491,7 +515,7 @@ func checkOrdering(c Cfg, x *explore.X, log *hx.Log) {
 				// the controller that creates the outputs, so an input destroyed before that is nobody's promise)
 				wasGuarded := guarded[key]
 				delete(guarded, key)
-				if out != nil && out.Metadata().Owner() == ctrlName && (c.usesInputFinalizers() || (c.Flavour == "cleanup" && wasGuarded)) {
+				if out != nil && out.Metadata().Owner() == ctrlName && (c.usesInputFinalizers() || (strings.HasPrefix(c.Flavour, "cleanup") && wasGuarded)) {
 					x.FailKey("order/input-destroyed-before-output", "%s: %s: the input disappeared while its derived output %s still exists", c.Name, at, snap(out))
 				}
 				continue
@@ -504,9 +528,10 @@ func checkOrdering(c Cfg, x *explore.X, log *hx.Log) {
 			if c.usesInputFinalizers() && had(ctrlName) && !has(ctrlName) && out != nil && out.Metadata().Owner() == ctrlName {
 				x.FailKey("order/finalizer-removed-before-output-destroyed", "%s: %s: the controller's finalizer left the input while the output %s still exists", c.Name, at, snap(out))
 			}
-			if c.Flavour == "cleanup" && had("cleaner") && !has("cleaner") {
-				if prev.Metadata().Phase() != resource.PhaseTearingDown || out != nil {
-					x.FailKey("order/cleanup-released-early", "%s: %s: the cleanup controller released its finalizer although the input was not tearing down or a dependent output %s still exists", c.Name, at, snap(out))
+			if strings.HasPrefix(c.Flavour, "cleanup") && had("cleaner") && !has("cleaner") {
+				dep := cur[string(CType)+"/dep-"+string(e.ID)]
+				if prev.Metadata().Phase() != resource.PhaseTearingDown || out != nil || dep != nil {
+					x.FailKey("order/cleanup-released-early", "%s: %s: the cleanup controller released its finalizer although the input was not tearing down or a dependant (%s / %s) still exists", c.Name, at, snap(out), snap(dep))
 				}
 			}
 		}
@@ -566,8 +591,18 @@ func Build(prop, tier string) []explore.Scenario {
 				bb = []int{0, 1, 2}
 			}
 			cfgs = append(cfgs, Cfg{Name: fl + "/" + n, Flavour: fl, Script: sc[n], Bounds: bb})
+
 		}
 		cfgs = append(cfgs, Cfg{Name: fl + "/create-update/transient-error", Flavour: fl, Script: []string{"create a", "update a"}, FailFirst: 1, Bounds: b})
+	}
+	// a cleanup controller with two combined handlers: the dependants disappear in either order
+	for n, sc2 := range map[string][]string{
+		"tdd-then-rmc":      {"create a", "mkc a", "tdd a", "rmc a"},
+		"rmc-then-tdd":      {"create a", "mkc a", "rmc a", "tdd a"},
+		"slow/tdd-then-rmc": {"create a", "mkc a", "settle", "tdd a", "settle", "rmc a"},
+		"slow/rmc-then-tdd": {"create a", "mkc a", "settle", "rmc a", "settle", "tdd a"},
+	} {
+		cfgs = append(cfgs, Cfg{Name: "cleanup-combined/" + n, Flavour: "cleanup-combined", Script: sc2, Bounds: []int{0}})
 	}
 	// a transform that keeps failing: the input gets the finalizer but never an output; then it is torn down
 	for _, fl := range []string{"transform-fin", "qtransform"} {
@@ -584,6 +619,28 @@ func Build(prop, tier string) []explore.Scenario {
 			Cfg{Name: fl + "/running-then-teardown/rmext", Flavour: fl, Script: []string{"createfin a", "teardown a", "rmext a"}, Bounds: b},
 			Cfg{Name: fl + "/seen-tearing-down/tdd", Flavour: fl, Script: []string{"createtd a", "tdd a", "rmext a"}, Bounds: b},
 		)
+	}
+	// every history once more by a slow actor (it lets the system go quiet before every step): far fewer
+	// schedules, and they start from the deep states a fast actor reaches last
+	for _, c := range append([]Cfg(nil), cfgs...) {
+		if strings.Contains(c.Name, "/slow/") {
+			continue
+		}
+		var slow []string
+		for i, op := range c.Script {
+			if i > 0 {
+				slow = append(slow, "settle")
+			}
+			slow = append(slow, op)
+		}
+		sc := c
+		sc.Name = strings.Replace(c.Name, "/", "/slow/", 1)
+		sc.Script = slow
+		sc.Bounds = []int{0, 1}
+		if thorough {
+			sc.Bounds = []int{0, 1, 2}
+		}
+		cfgs = append(cfgs, sc)
 	}
 	maxExecs := 40000
 	if thorough {
